@@ -1055,6 +1055,20 @@ func (w *World) upstreamHandler(rw http.ResponseWriter, req *http.Request) {
 		}
 		panic(http.ErrAbortHandler)
 	}
+	if out.Kind == "drop" {
+		// the origin has read the request and closes the connection without sending a byte
+		w.mu.Lock()
+		ri.used = Outcome{Kind: "error"}
+		w.emitLocked(Event{"op": "UpEnd", "r": ri.Rid, "hasResp": false, "ttl": 0})
+		w.mu.Unlock()
+		if hj, ok := rw.(http.Hijacker); ok {
+			if conn, _, err := hj.Hijack(); err == nil {
+				_ = conn.Close()
+				return
+			}
+		}
+		panic(http.ErrAbortHandler)
+	}
 	if out.Kind == "error" {
 		w.mu.Lock()
 		w.emitLocked(Event{"op": "UpEnd", "r": ri.Rid, "hasResp": false, "ttl": 0})
